@@ -1,5 +1,5 @@
-(* C19: the algorithm (complement, with the edge iterator) on every linear strand, any length:
-   the residues added are the complements of the strand read backwards. *)
+(* C19: the algorithm (complement, with the edge iterator) on every linear and every circular strand,
+   any length: the residues added are the complements of the strand read backwards. *)
 From Coq Require Import ZArith String List Bool Lia.
 From PV Require Import Dna.
 Import ListNotations.
@@ -35,6 +35,15 @@ Lemma adj_linear m : forall k0 n k, k0 <= k < k0 + Z.of_nat m ->
   adj_of (linear_adj k0 n m) k = ((if 0 <? k then [(k - 1, [])] else []) ++ (if k + 1 <? n then [(k + 1, [])] else []))%list.
 Proof.
   induction m as [|m IH]; intros k0 n k H; [lia|]. cbn [linear_adj adj_of]. destruct (Z.eqb_spec k0 k) as [-> | Hne]; [reflexivity|].
+  apply IH. lia.
+Qed.
+
+Lemma adj_circular m : forall k0 n k, k0 <= k < k0 + Z.of_nat m ->
+  adj_of (circular_adj k0 n m) k = ((if (k =? n - 1) && (0 <? k) then [(0, circle_attr)] else []) ++
+                                     (if 0 <? k then [(k - 1, [])] else []) ++ (if k + 1 <? n then [(k + 1, [])] else []) ++
+                                     (if k =? 0 then [(n - 1, circle_attr)] else []))%list.
+Proof.
+  induction m as [|m IH]; intros k0 n k H; [lia|]. cbn [circular_adj adj_of]. destruct (Z.eqb_spec k0 k) as [-> | Hne]; [reflexivity|].
   apply IH. lia.
 Qed.
 
@@ -119,12 +128,19 @@ Qed.
 Section Strand.
 Variable s : list string.
 Let n := Z.of_nat (List.length s).
+(* the neighbour lists of the strand's residues: what the loop needs to know about them *)
+Variable adj0 : list (Z * list (Z * eattr)).
+Hypothesis adj_step : forall extra k, 0 < k < n ->
+  scan (linear_nodes 0 s ++ extra) (k + 1) (n - 1) (adj_of adj0 k) = Some (k - 1, false).
+Hypothesis adj_zero : forall extra,
+  scan (linear_nodes 0 s ++ extra) 1 (n - 1) (adj_of adj0 0) = None \/
+  exists nb, 0 < nb < n /\ scan (linear_nodes 0 s ++ extra) 1 (n - 1) (adj_of adj0 0) = Some (nb, true).
 
 Record inv (left right comps : list string) (st : st) : Prop := {
   i_split : s = (left ++ right)%list;
   i_comp : comp_all table (rev right) = Some comps;
   i_nodes : g_nodes (s_g st) = (linear_nodes 0 s ++ new_nodes n comps)%list;
-  i_adj : forall k, 0 <= k < n -> adj_of (g_adj (s_g st)) k = adj_of (linear_adj 0 n (List.length s)) k;
+  i_adj : forall k, 0 <= k < n -> adj_of (g_adj (s_g st)) k = adj_of adj0 k;
   i_corr : s_corr st = corr_list n (List.length right);
   i_total : s_total st = n + Z.of_nat (List.length right) - 1;
   i_maxres : g_maxres (s_g st) = n + Z.of_nat (List.length right)
@@ -220,22 +236,20 @@ Proof.
     destruct s as [|x0 srest] eqn:Es; [contradiction|].
     assert (Hf0 : find_node (g_nodes (s_g st)) 0 = Some {| n_key := 0; n_resid := 0 + 1; n_name := x0 |}).
     { rewrite Hn. apply find_linear; [reflexivity|lia]. }
-    rewrite Hf0. cbn [n_resid]. rewrite (Ha 0) by lia. rewrite adj_linear by (cbn [List.length]; lia). cbn [Z.ltb Z.compare app].
-    destruct (Z.ltb_spec (0 + 1) n) as [Hn2 | Hn2]; cbn [scan app].
-    + destruct srest as [|x1 srest2]; [subst n; cbn [List.length] in Hn2; lia|].
-      assert (Hf1 : find_node (g_nodes (s_g st)) (0 + 1) = Some {| n_key := 1; n_resid := 1 + 1; n_name := x1 |}).
-      { rewrite Hn. apply find_linear; [reflexivity|lia]. }
-      rewrite Hf1. cbn [n_resid]. replace (0 + 1 - (1 + 1) =? 1) with false by reflexivity. cbn [Z.gtb Z.compare andb].
-      replace (1 + 1 >? 0 + 1) with true by reflexivity. cbn [andb].
-      destruct (Z.eqb_spec (0 + 1) (n - 1)) as [E2 | E2]; cbn [scan].
-      * (* two residues: the iterator yields the edge (0, 1) once more and stops *)
-        destruct (comp_all_in _ _ x1 Hc) as [c1 Hc1]; [apply in_rev; rewrite rev_involutive; right; left; reflexivity|].
-        destruct (body_existing st 0 (0 + 1) _ c1 (n + 1) n Hf1 Hc1) as (st' & Hb & Hnodes).
-        { rewrite Hcr. replace 0 with (n - 1 - Z.of_nat 1) by lia. rewrite corr_list_get by (cbn [List.length]; lia). reflexivity. }
-        { rewrite Hcr. replace (0 + 1) with (n - 1 - Z.of_nat 0) by lia. rewrite corr_list_get by (cbn [List.length]; lia). f_equal; lia. }
-        rewrite Hb. exists st'. split; [reflexivity|]. rewrite Hnodes. exact Hn.
-      * exists st. split; [reflexivity|exact Hn].
+    rewrite Hf0. cbn [n_resid]. rewrite (Ha 0) by lia. rewrite Hn. change (0 + 1) with 1.
+    destruct (adj_zero (new_nodes n comps)) as [E0 | (nb & Hnb & E0)]; rewrite E0.
     + exists st. split; [reflexivity|exact Hn].
+    + (* the iterator yields one more edge between residues that both have their partner, and stops *)
+      assert (Hnth : exists xb, nth_error (x0 :: srest) (Z.to_nat (nb - 0)) = Some xb).
+      { destruct (nth_error (x0 :: srest) (Z.to_nat (nb - 0))) as [xb|] eqn:En; [eauto|]. apply nth_error_None in En. subst n. lia. }
+      destruct Hnth as (xb & Hxb).
+      assert (Hfb : find_node (g_nodes (s_g st)) nb = Some {| n_key := nb; n_resid := nb + 1; n_name := xb |}).
+      { rewrite Hn. apply find_linear; [exact Hxb|lia]. }
+      destruct (comp_all_in _ _ xb Hc) as [cb Hcb]; [apply in_rev; rewrite rev_involutive; rewrite Z.sub_0_r in Hxb; exact (nth_error_In_local _ _ _ Hxb)|].
+      destruct (body_existing st 0 nb _ cb (n + Z.of_nat (Z.to_nat (n - 1))) (n + Z.of_nat (Z.to_nat (n - 1 - nb))) Hfb Hcb) as (st' & Hb & Hnodes).
+      { rewrite Hcr. replace 0 with (n - 1 - Z.of_nat (Z.to_nat (n - 1))) at 1 by lia. apply corr_list_get. subst n. lia. }
+      { rewrite Hcr. replace nb with (n - 1 - Z.of_nat (Z.to_nat (n - 1 - nb))) at 1 by lia. apply corr_list_get. subst n. lia. }
+      rewrite Hb. exists st'. split; [reflexivity|]. rewrite Hnodes. exact Hn.
   - (* source = len left + 1 >= 1: step to the left *)
     rewrite rev_app_distr in Hcl. cbn [rev app comp_all] in Hcl.
     destruct (tlookup table y) as [cy|] eqn:Ey; [|discriminate]. destruct (comp_all table (rev left)) as [cl'|] eqn:Ecl; [|discriminate].
@@ -249,12 +263,7 @@ Proof.
     assert (Hfs : find_node (g_nodes (s_g st)) (p + 1) = Some {| n_key := p + 1; n_resid := p + 1 + 1; n_name := z |}).
     { rewrite Hn. apply find_linear; [|lia]. rewrite Z.sub_0_r. replace (Z.to_nat (p + 1)) with (List.length (left ++ [y])) by (rewrite app_length; cbn; lia).
       rewrite Hs, nth_error_app2 by lia. rewrite Nat.sub_diag. reflexivity. }
-    rewrite Hfs. cbn [n_resid]. rewrite (Ha (p + 1)) by lia. rewrite adj_linear by lia.
-    replace (0 <? p + 1) with true by (symmetry; apply Z.ltb_lt; lia). cbn [app scan].
-    assert (Hfy : find_node (g_nodes (s_g st)) (p + 1 - 1) = Some {| n_key := p; n_resid := p + 1; n_name := y |}).
-    { replace (p + 1 - 1) with p by lia. rewrite Hn. apply find_linear; [|lia]. rewrite Z.sub_0_r. subst p. rewrite Nat2Z.id, Hs, <- app_assoc, nth_error_app2 by lia.
-      rewrite Nat.sub_diag. reflexivity. }
-    rewrite Hfy. cbn [n_resid]. replace (p + 1 + 1 - (p + 1) =? 1) with true by (symmetry; apply Z.eqb_eq; lia).
+    rewrite Hfs. cbn [n_resid]. rewrite (Ha (p + 1)) by lia. rewrite Hn, (adj_step (new_nodes n comps) (p + 1) ltac:(lia)).
     destruct (body_step left y (z :: right') comps st cy Hinv ltac:(discriminate) Ey) as (st' & Hb & Hinv').
     replace (p + 1 - 1) with p by lia. fold p in Hb. rewrite Hb.
     destruct (IH (y :: z :: right') (comps ++ [cy]) st' f cl' Hinv' ltac:(discriminate) eq_refl ltac:(lia)) as (st'' & Hl & Hnn).
@@ -272,26 +281,30 @@ Proof.
     + rewrite IH. do 2 f_equal; lia.
 Qed.
 
-(* the algorithm on a linear strand of any length: the residues of the completed molecule are the
-   strand followed by the complements of its residues read backwards *)
-Theorem complement_linear s comps : s <> [] -> comp_strand table s = Some comps ->
-  exists g', complement table (linear s) = Ok g' /\ map n_name (g_nodes g') = (s ++ comps)%list /\
+(* the algorithm on any strand graph whose residues are keyed 0..n-1 in order, whose neighbour lists
+   start with the predecessor, and at whose first residue the iterator stops or closes a ring *)
+Theorem complement_strand s adj0 comps : s <> [] -> comp_strand table s = Some comps ->
+  let n := Z.of_nat (List.length s) in
+  (forall extra k, 0 < k < n -> scan (linear_nodes 0 s ++ extra) (k + 1) (n - 1) (adj_of adj0 k) = Some (k - 1, false)) ->
+  (forall extra, scan (linear_nodes 0 s ++ extra) 1 (n - 1) (adj_of adj0 0) = None \/
+                 exists nb, 0 < nb < n /\ scan (linear_nodes 0 s ++ extra) 1 (n - 1) (adj_of adj0 0) = Some (nb, true)) ->
+  exists g', complement table {| g_nodes := linear_nodes 0 s; g_adj := adj0; g_maxres := n |} = Ok g' /\
+             map n_name (g_nodes g') = (s ++ comps)%list /\
              map n_resid (g_nodes g') = map (fun k => Z.of_nat k + 1) (seq 0 (2 * List.length s)).
 Proof.
-  intros Hne Hc. unfold comp_strand in Hc. destruct (exists_last Hne) as (init & z & Es).
-  set (n := Z.of_nat (List.length s)).
+  intros Hne Hc n Hpred Hzero. unfold comp_strand in Hc. destruct (exists_last Hne) as (init & z & Es).
   assert (Hn : n = Z.of_nat (List.length init) + 1) by (subst n; rewrite Es, app_length; cbn; lia).
   rewrite Es, rev_app_distr in Hc. cbn [rev app comp_all] in Hc.
   destruct (tlookup table z) as [cz|] eqn:Ez; [|discriminate]. destruct (comp_all table (rev init)) as [ci|] eqn:Ei; [|discriminate].
-  injection Hc as <-. unfold complement, linear. cbn [g_nodes].
+  injection Hc as <-. unfold complement. cbn [g_nodes].
   assert (Hlast : last (map Some (linear_nodes 0 s)) None =
                   Some {| n_key := Z.of_nat (List.length init); n_resid := Z.of_nat (List.length init) + 1; n_name := z |}).
   { rewrite Es, last_linear. rewrite !Z.add_0_l. reflexivity. }
   rewrite Hlast. cbn [n_name n_key]. rewrite Ez.
-  set (k := Z.of_nat (List.length init)). fold n.
-  set (st0 := {| s_g := add_node {| g_nodes := linear_nodes 0 s; g_adj := linear_adj 0 n (List.length s); g_maxres := n |} (k + 1) cz;
+  set (k := Z.of_nat (List.length init)).
+  set (st0 := {| s_g := add_node {| g_nodes := linear_nodes 0 s; g_adj := adj0; g_maxres := n |} (k + 1) cz;
                  s_corr := [(k, k + 1)]; s_total := k + 1 |}).
-  assert (Hinv0 : inv s init [z] [cz] st0).
+  assert (Hinv0 : inv s adj0 init [z] [cz] st0).
   { unfold st0. constructor; cbn [s_g s_corr s_total List.length]; fold n.
     - exact Es.
     - cbn [rev app comp_all]. rewrite Ez. reflexivity.
@@ -301,7 +314,7 @@ Proof.
     - cbn [corr_list app]. do 2 f_equal; lia.
     - lia.
     - unfold add_node. cbn [g_maxres]. lia. }
-  destruct (loop_names s init [z] [cz] st0 (S (S (List.length (linear_nodes 0 s)))) ci Hinv0 ltac:(discriminate) Ei) as (st' & Hl & Hnodes).
+  destruct (loop_names s adj0 Hpred Hzero init [z] [cz] st0 (S (S (List.length (linear_nodes 0 s)))) ci Hinv0 ltac:(discriminate) Ei) as (st' & Hl & Hnodes).
   { assert (Hll : forall l k0, List.length (linear_nodes k0 l) = List.length l) by (induction l as [|a r IHl]; intros k0; cbn; [reflexivity|rewrite IHl; reflexivity]).
     rewrite Hll, Es, app_length. cbn. lia. }
   fold n in Hl. replace (n - 1) with k in Hl by lia. subst k. rewrite Hl. exists (s_g st'). split; [reflexivity|]. rewrite Hnodes.
@@ -325,5 +338,56 @@ Proof.
     + apply map_ext. intros j. lia.
     + replace (0 + List.length s)%nat with (List.length s + 0)%nat by lia. rewrite <- (seq_shift_n_local (List.length s) 0%nat), map_map.
       apply map_ext. intros j. subst n. lia.
+Qed.
+
+(* ---- instance 1: the linear strand the sequence readers build ---- *)
+Lemma nth_strand (s : list string) k : 0 <= k < Z.of_nat (List.length s) -> exists x, nth_error s (Z.to_nat (k - 0)) = Some x.
+Proof. intros H. destruct (nth_error s (Z.to_nat (k - 0))) as [x|] eqn:E; [eauto|]. apply nth_error_None in E. lia. Qed.
+
+Theorem complement_linear s comps : s <> [] -> comp_strand table s = Some comps ->
+  exists g', complement table (linear s) = Ok g' /\ map n_name (g_nodes g') = (s ++ comps)%list /\
+             map n_resid (g_nodes g') = map (fun k => Z.of_nat k + 1) (seq 0 (2 * List.length s)).
+Proof.
+  intros Hne Hc. unfold linear. apply (complement_strand s _ comps Hne Hc).
+  - intros extra k Hk. rewrite adj_linear by lia. replace (0 <? k) with true by (symmetry; apply Z.ltb_lt; lia). cbn [app scan].
+    destruct (nth_strand s (k - 1) ltac:(lia)) as (x & Hx). rewrite (find_linear s 0 extra (k - 1) x Hx ltac:(lia)). cbn [n_resid].
+    replace (k + 1 - (k - 1 + 1) =? 1) with true by (symmetry; apply Z.eqb_eq; lia). reflexivity.
+  - intros extra. rewrite adj_linear by (destruct s; [contradiction|cbn [List.length]; lia]). cbn [Z.ltb Z.compare app].
+    destruct (Z.ltb_spec (0 + 1) (Z.of_nat (List.length s))) as [Hn2 | Hn2]; cbn [scan]; [|left; reflexivity].
+    destruct s as [|x0 [|x1 srest]]; [contradiction|cbn [List.length] in Hn2; lia|].
+    rewrite (find_linear (x0 :: x1 :: srest) 0 extra (0 + 1) x1 eq_refl ltac:(lia)). cbn [n_resid].
+    replace (1 - (0 + 1 + 1) =? 1) with false by reflexivity. replace (0 + 1 + 1 >? 1) with true by reflexivity. cbn [andb].
+    destruct (Z.eqb_spec (0 + 1) (Z.of_nat (List.length (x0 :: x1 :: srest)) - 1)) as [E | E]; cbn [scan]; [|left; reflexivity].
+    right. exists (0 + 1). split; [cbn [List.length] in *; lia|reflexivity].
+Qed.
+
+(* ---- instance 2: a circular strand (parse_ig, then the MetaMolecule copy) ---- *)
+Theorem complement_circular s comps : (3 <= List.length s)%nat -> comp_strand table s = Some comps ->
+  exists g', complement table (circular s) = Ok g' /\ map n_name (g_nodes g') = (s ++ comps)%list /\
+             map n_resid (g_nodes g') = map (fun k => Z.of_nat k + 1) (seq 0 (2 * List.length s)).
+Proof.
+  intros H3 Hc. assert (Hne : s <> []) by (destruct s; [cbn in H3; lia|discriminate]). unfold circular.
+  set (n := Z.of_nat (List.length s)). assert (Hn3 : 3 <= n) by (subst n; lia).
+  apply (complement_strand s _ comps Hne Hc); fold n.
+  - intros extra k Hk. rewrite adj_circular by lia. replace (0 <? k) with true by (symmetry; apply Z.ltb_lt; lia). rewrite andb_true_r.
+    destruct (nth_strand s (k - 1) ltac:(lia)) as (x & Hx).
+    destruct (Z.eqb_spec k (n - 1)) as [Ek | Ek]; cbn [app scan].
+    + (* the last residue lists residue 0 first: not the predecessor, not a ring closure seen from here *)
+      destruct (nth_strand s 0 ltac:(lia)) as (x0 & Hx0). rewrite (find_linear s 0 extra 0 x0 Hx0 ltac:(lia)). cbn [n_resid].
+      replace (k + 1 - (0 + 1) =? 1) with false by (symmetry; apply Z.eqb_neq; lia).
+      replace (0 + 1 >? k + 1) with false by (rewrite Z.gtb_ltb; symmetry; apply Z.ltb_ge; lia). cbn [andb].
+      rewrite (find_linear s 0 extra (k - 1) x Hx ltac:(lia)). cbn [n_resid].
+      replace (k + 1 - (k - 1 + 1) =? 1) with true by (symmetry; apply Z.eqb_eq; lia). reflexivity.
+    + rewrite (find_linear s 0 extra (k - 1) x Hx ltac:(lia)). cbn [n_resid].
+      replace (k + 1 - (k - 1 + 1) =? 1) with true by (symmetry; apply Z.eqb_eq; lia). reflexivity.
+  - intros extra. rewrite adj_circular by lia. replace (0 =? n - 1) with false by (symmetry; apply Z.eqb_neq; lia). cbn [andb Z.ltb Z.compare app].
+    replace (0 + 1 <? n) with true by (symmetry; apply Z.ltb_lt; lia). cbn [app Z.eqb scan].
+    destruct (nth_strand s 1 ltac:(lia)) as (x1 & Hx1). rewrite (find_linear s 0 extra (0 + 1) x1 Hx1 ltac:(lia)). cbn [n_resid].
+    replace (1 - (0 + 1 + 1) =? 1) with false by reflexivity. replace (0 + 1 + 1 >? 1) with true by reflexivity. cbn [andb].
+    replace (0 + 1 =? n - 1) with false by (symmetry; apply Z.eqb_neq; lia). cbn [scan].
+    destruct (nth_strand s (n - 1) ltac:(lia)) as (xl & Hxl). rewrite (find_linear s 0 extra (n - 1) xl Hxl ltac:(lia)). cbn [n_resid].
+    replace (1 - (n - 1 + 1) =? 1) with false by (symmetry; apply Z.eqb_neq; lia).
+    replace (n - 1 + 1 >? 1) with true by (symmetry; apply Z.gtb_lt; lia). rewrite Z.eqb_refl. cbn [andb].
+    right. exists (n - 1). split; [lia|reflexivity].
 Qed.
 End Linear.
